@@ -8,6 +8,7 @@ the analyser no longer recognises code that still satisfies the property - both 
 """
 import concurrent.futures
 import os
+import re
 import shutil
 import subprocess
 import sys
@@ -42,17 +43,22 @@ def run_one(args):
 def main(argv):
     pat = None
     verbose = False
+    only = None
     it = iter(argv)
     for a in it:
         if a == '-k':
             pat = next(it)
         elif a == '-v':
             verbose = True
+        elif a == '--checks':
+            only = [c.upper() for c in next(it).split(',')]
     base = os.path.join(VERIF, 'neutral')
     names = sorted(n for n in os.listdir(base)
-                   if os.path.exists(os.path.join(base, n, 'patch.diff')) and (pat is None or pat in n))
+                   if os.path.exists(os.path.join(base, n, 'patch.diff')) and (pat is None or pat in n or re.search(pat, n)))
     every = sorted(f[:-3].upper() for f in os.listdir(os.path.join(VERIF, 'checks'))
                    if f.startswith('c') and f.endswith('.py') and f[1:3].isdigit())
+    if only:
+        every = [c for c in every if c in only]
     bad = 0
     with concurrent.futures.ThreadPoolExecutor(max_workers=16) as ex:
         for name, res in ex.map(run_one, [(n, every) for n in names]):
